@@ -49,6 +49,7 @@ import (
 	"reflect"
 	"strings"
 	"sync"
+	"sync/atomic"
 	"time"
 
 	"github.com/cloudwego/hertz/internal/bytestr"
@@ -272,9 +273,12 @@ type Client struct {
 
 	clientFactory suite.ClientFactory
 
-	mLock          sync.Mutex
-	m              map[string]client.HostClient
-	ms             map[string]client.HostClient
+	mLock sync.Mutex
+	m     map[string]client.HostClient
+	ms    map[string]client.HostClient
+	// inUse counts, per host client of m and ms, the requests between their lookup (under mLock) and the return
+	// of HostClient.Do: the cleaner must not remove a host client somebody is about to use or is using.
+	inUse          map[client.HostClient]*int32
 	mws            Middleware
 	lastMiddleware Middleware
 }
@@ -536,6 +540,16 @@ func (c *Client) do(ctx context.Context, req *protocol.Request, resp *protocol.R
 			startCleaner = true
 		}
 	}
+	using := c.inUse[hc]
+	if using == nil {
+		if c.inUse == nil {
+			c.inUse = make(map[client.HostClient]*int32)
+		}
+		using = new(int32)
+		c.inUse[hc] = using
+	}
+	atomic.AddInt32(using, 1)
+	defer atomic.AddInt32(using, -1)
 
 	c.mLock.Unlock()
 
@@ -578,8 +592,12 @@ func (c *Client) cleanHostClients(isTLS bool) bool {
 		m = c.ms
 	}
 	for k, v := range m {
+		if using := c.inUse[v]; using != nil && atomic.LoadInt32(using) != 0 {
+			continue
+		}
 		if v.ShouldRemove() {
 			delete(m, k)
+			delete(c.inUse, v)
 			if f, ok := v.(io.Closer); ok {
 				err := f.Close()
 				if err != nil {
